@@ -1,7 +1,7 @@
 LIBS = ["libvpsc"]
 HARNESS = "harness/c09.cpp"
 DRIVER_MODE = "c09"
-LEAN_MODULES = ["AdaptaVerif.Props.C09", "AdaptaVerif.Props.C09Tie"]
+LEAN_MODULES = ["AdaptaVerif.Props.C09", "AdaptaVerif.Props.C09Tie", "AdaptaVerif.Props.C09Static"]
 LEVEL = "proof"
 LEVEL_TEXT = ("Lean 4 theorems about a hand-written model of the scan-line generators of libvpsc/rectangle.cpp "
               "(firstAbove/firstBelow and neighbour-set bookkeeping), for ALL rectangle arrays, ALL border values, "
